@@ -70,6 +70,9 @@ def loops_of(fn_node):
                 continue
             if isinstance(c, (ast.For, ast.While, ast.ListComp)):
                 out.append(c)  # a list comprehension is a loop (over its single generator) that appends
+            if (isinstance(c, ast.Call) and isinstance(c.func, ast.Name) and c.func.id == "sum" and len(c.args) == 1
+                    and isinstance(c.args[0], ast.GeneratorExp)):
+                out.append(c.args[0])  # sum(<elt> for x in xs) is a loop that accumulates into `_sum<k>`
             walk(c)
 
     walk(fn_node)
@@ -106,7 +109,7 @@ class Executor:
         self.loop_ord = {id(n): i + 1 for i, n in enumerate(self.loops)}
         self.prefix = f"{spec.prop}/{spec.file}::{spec.qualname}"
         if variant:
-            self.prefix += "{" + ",".join(f"{k}:{v}" for k, v in variant.items()) + "}"
+            self.prefix += "{" + ",".join(f"{k}:{v}" for k, v in variant.items() if not k.startswith("_")) + "}"
         self.assumed: list[str] = []
         self.old: State | None = None
         self.ret_t: T | None = None
@@ -777,7 +780,7 @@ class Executor:
         for g, gexpr in self.spec.ghost_return.items():
             st.vars[g] = self.spec_value(gexpr, st, old=self.old, result=res)
         self.n_ret += 1
-        if self.spec.cover:
+        if self.spec.cover and not self.variant.get("_dead_returns_ok"):
             self.emit(st, "cover", z3.BoolVal(False), line, expect="refutable")
         # in ensures, parameter names denote the values at entry (parameters may be reassigned by the body)
         pst = st.copy()
@@ -1046,7 +1049,19 @@ class Executor:
         return mk_list(lst.t, z3.If(n.z >= 0, n.z, 0), z3.K(z3.IntSort(), elem))
 
     def list_concat(self, ev, a, b, node):
-        raise Unsupported("list concatenation")
+        """a + b of two lists with the same element type: a fresh list value (no aliasing with either operand)"""
+        if not (isinstance(a.t, TList) and isinstance(b.t, TList)) or a.t.elem != b.t.elem:
+            raise Unsupported("list concatenation of different element types")
+        if isinstance(a.t.elem, (TList, TDict, TSet)):
+            raise Unsupported("concatenation of lists of mutable rows (aliased rows)")
+        la, lb = list_len(a), list_len(b)
+        r = self.new_sym(a.t, "concat", ev.st)
+        j = z3.Int("j!cat")
+        ev.st.pc.append(list_len(r) == la + lb)
+        ev.st.pc.append(z3.ForAll([j], z3.Implies(z3.And(0 <= j, j < la + lb),
+                                                  z3.Select(list_arr(r), j) == z3.If(j < la, z3.Select(list_arr(a), j), z3.Select(list_arr(b), j - la))),
+                                  patterns=[z3.Select(list_arr(r), j)]))
+        return r
 
     def list_literal(self, ev, node):
         vs = [ev.expr(e) for e in node.elts]
